@@ -114,6 +114,8 @@ def rnd_value(t, rng, curs):
             return Decimal(rng.choice(['1E+3', '2.5E+4', '-7E+2', '0E+2', '1.20E+5']))
         return rnd_number(rng, rng.choice([0, 1, 2, 2, 4, 6]), 8)
     if t == 'str':
+        if rng.random() < 0.004:      # outside the domain: the table is skipped and counted
+            return rnd_text(rng, 5) + rng.choice('\n\r\x0b\x85\u2028') + rnd_text(rng, 5)
         return rnd_text(rng)
     if t == 'date':
         return rng.choice([datetime.date(1000, 1, 1), datetime.date(9999, 12, 31), datetime.date(2024, 2, 29),
